@@ -350,7 +350,7 @@ func createVectorImageFunctions(cdata ImageMap) { //nolint:funlen // this is a g
 			return object.Errorf("unknown image.draw function %q", name)
 		}
 		if oerr != nil {
-			return oerr
+			return *oerr
 		}
 		img.Vect.ClosePath() // just in case
 		src := image.NewUniform(color)
